@@ -27,8 +27,8 @@ def main():
     meta = json.loads((mdir / "meta.json").read_text())
     pid = meta["property"]
     # private scratch paths per evaluation: several evaluations may run at the same time
-    repo = Path("/repo") if inplace else Path(f"/tmp/wt_eval_{os.getpid()}")
-    EVAL_COPY = Path(f"/tmp/verif_eval_{os.getpid()}")
+    repo = Path("/repo") if inplace else Path(f"/tmp/coordwt_{os.getpid()}")
+    EVAL_COPY = Path(f"/tmp/coordev_{os.getpid()}")
     if not inplace:
         r = sh(f"git -C /repo worktree add --detach {repo} HEAD")
         assert r.returncode == 0, r.stderr
